@@ -67,8 +67,13 @@ def strategy(tier: str):
             "link": st.sampled_from((False, False, True)),
             "old_age": st.sampled_from((0, 0, 899, 901, 3600, 86400 * 400)),
             "path_form": st.sampled_from(("absolute", "absolute", "bare", "dot", "subdir")),
+            "file_name": st.sampled_from(FILE_NAMES),
         }
     )
+
+
+# how the application names its registry file: nothing in the property depends on an extension
+FILE_NAMES = ("persistence.json", "persistence.json", "mysensors.db", "nodes", "registry.JSON", "nodes.json.bak", ".mysensors", "my.sensors.pickle", "a.tmp", "nodes.json.json")
 
 
 def _node(i: int, name: str, children: bool = True) -> dict:
@@ -93,6 +98,9 @@ def enumerate_cases(tier: str):
                         yield {"old": old, "new": new, "same": False, "second": False, "how": how, "old_layout": layout, "old_age": age}
                     for form in ("bare", "dot", "subdir"):
                         yield {"old": old, "new": new, "same": False, "second": False, "how": how, "old_layout": layout, "path_form": form}
+                    if how in ("save", "context"):
+                        for name in FILE_NAMES[2:]:
+                            yield {"old": old, "new": new, "same": False, "second": how == "save", "how": how, "old_layout": layout, "file_name": name}
 
 
 # ---------------------------------------------------------------------------
@@ -132,10 +140,10 @@ def _install(ctl: _Control) -> None:
     real_open = builtins.open
 
     class CrashFileIO(io.FileIO):
-        def __init__(self, name, mode) -> None:
+        def __init__(self, name, mode, opener=None) -> None:
             full = os.path.abspath(str(name))
             ctl.tick("open", mode=mode, path=os.path.basename(full) if full.startswith(ctl.scratch) else full)
-            super().__init__(name, mode)
+            super().__init__(name, mode, opener=opener)
 
         def write(self, data) -> int:
             part = ctl.tick("write", size=len(data))
@@ -158,10 +166,8 @@ def _install(ctl: _Control) -> None:
         full = os.path.abspath(os.fspath(file)) if is_path else ""
         if not is_path or not any(ch in mode for ch in "wax+") or full in ("/dev/null", "/dev/zero", "/dev/tty") or full.startswith(("/proc/", "/sys/", "/dev/pts", "/dev/fd")):
             return real_open(file, mode, buffering, encoding, errors, newline, closefd, opener)
-        if opener is not None:
-            return real_open(file, mode, buffering, encoding, errors, newline, closefd, opener)  # custom openers are not modelled
         raw_mode = mode.replace("b", "").replace("t", "")
-        raw = CrashFileIO(file, raw_mode)
+        raw = CrashFileIO(file, raw_mode, opener)  # (a custom opener decides the flags and permissions; the operations on the file are the same)
         buffered = io.BufferedWriter(raw) if "+" not in raw_mode else io.BufferedRandom(raw)
         if "b" in mode:
             return buffered
@@ -431,7 +437,7 @@ def run_case(case: dict) -> Outcome:
     new = case["new"]
     old = new if case.get("same") else case["old"]
     scratch = tempfile.mkdtemp(prefix="vf-c15-", dir=c13.SCRATCH_BASE)
-    path = os.path.join(scratch, "persistence.json")
+    path = os.path.join(scratch, case.get("file_name") or "persistence.json")
     forks_total = 0
     info = {"inside": 0, "ops": 0, "second": 0}
     known = load_known(ID)
@@ -514,17 +520,19 @@ def run_case(case: dict) -> Outcome:
                 merged = dict(loaded)
                 gateway_view = dict(merged)
                 gateway_view.update({"77": third["77"]})
-                # what the second session saves: what it loaded plus one more node
-                saving = {k: v for k, v in gateway_view.items()}
-                _restore(scratch, state)
-                third_bytes, third_snap = env.run(save_real(saving))
-                HOW[0] = "save"
-                failure, kfail, forks, _ops2, _s2 = _sweep(scratch, path, state, saving, [loaded, third_snap], third_bytes, known, None, label="second save: ")
-                forks_total += forks
-                info["second"] += 1
-                if failure is not None:
-                    failure.extra_evals = forks_total - 1
-                    return failure
+                # what the second session saves: what it loaded plus one more node; exactly what it loaded (the first scheduled
+                # save after a restart); a registry the application has pruned to one node (a shorter text than anything written before)
+                smallest = dict(list(merged.items())[:1]) or {"77": third["77"]}
+                for saving in ({k: v for k, v in gateway_view.items()}, dict(merged), smallest):
+                    _restore(scratch, state)
+                    third_bytes, third_snap = env.run(save_real(saving))
+                    HOW[0] = "save"
+                    failure, kfail, forks, _ops2, _s2 = _sweep(scratch, path, state, saving, [loaded, third_snap], third_bytes, known, None, label="second save: ")
+                    forks_total += forks
+                    info["second"] += 1
+                    if failure is not None:
+                        failure.extra_evals = forks_total - 1
+                        return failure
     finally:
         AGE[0] = 0
         PATH_FORM[0] = "absolute"
